@@ -62,6 +62,13 @@ MENU = [
     ("for-multiline-var", "FOR I=1 TO 2", "NEXT I:", set()),
     ("for-if-exit", "FOR I=1 TO 3:IF I=A THEN {t}", "NEXT:", set()),
     ("for-empty", "FOR I=2 TO 1:{m}:NEXT", None, {"for-empty-range"}),
+    # control constructs whose selector / condition / bound needs a hoisted runtime call, right after the statement that sets its operand
+    ("on-gosub-int", "X=A+.5:ON INT(X) GOSUB 100,110", None, set()),
+    ("on-goto-int", "X=B+.5:ON INT(X) GOTO {t},{u}", None, set()),
+    ("if-int", "X=A+.5:IF INT(X)=1 THEN {m}", None, set()),
+    ("if-int-line", "X=A+.5:IF INT(X)=1 THEN {t}", None, set()),
+    ("for-int", "X=B+1.5:FOR I=1 TO INT(X):{m}:NEXT", None, set()),
+    ("gosub-in-for", "FOR I=1 TO 2:GOSUB 100:NEXT", None, set()),
     ("end", "END", None, set()),
     ("stop", "STOP", None, set()),
     ("if-end", "IF A=1 THEN END", None, set()),
